@@ -50,6 +50,7 @@ Definition s_iffalse : list N := [105; 102; 102; 97; 108; 115; 101].
 Definition s_ifnum : list N := [105; 102; 110; 117; 109].
 Definition s_ifcase : list N := [105; 102; 99; 97; 115; 101].
 Definition s_let : list N := [108; 101; 116].
+Definition s_ifodd : list N := [105; 102; 111; 100; 100].
 Definition s_newcommand : list N := [110; 101; 119; 99; 111; 109; 109; 97; 110; 100].
 Definition s_renewcommand : list N := [114; 101; 110; 101; 119; 99; 111; 109; 109; 97; 110; 100].
 Definition s_text : list N := [35; 116; 101; 120; 116].                        (* "#text" *)
@@ -59,18 +60,21 @@ Definition starts_if (n : list N) : bool := match n with 105 :: 102 :: _ => true
 (* ---- elements (macro instances in the stream) ---- *)
 Definition E_BGROUP : N := 0.  Definition E_EGROUP : N := 1.  Definition E_DEF : N := 2.  Definition E_GDEF : N := 3.
 Definition E_RELAX : N := 4.   Definition E_ELSE : N := 5.    Definition E_FI : N := 6.   Definition E_UNREC : N := 7.
-Definition E_NEWCOMMAND : N := 9.  Definition E_RENEWCOMMAND : N := 10.  Definition E_LET : N := 11.
+Definition E_NEWCOMMAND : N := 9.  Definition E_RENEWCOMMAND : N := 10.  Definition E_LET : N := 11.  Definition E_NEWIF : N := 12.
 Definition elem (cls : N) (name : list N) : tok := Tok (16 + cls) name.
 Definition is_elem (t : tok) : bool := 16 <=? tcat t.
 
 (* ---- meanings and the context ---- *)
 Inductive prim := PBgroup | PEgroup | PDef (global : bool) | PRelax | PElse | PFi | PIftrue | PIffalse | PIfnum | PIfcase
-                | PNewcommand (renew : bool) | PLet.
+                | PNewcommand (renew : bool) | PLet | PIfodd | PNewif.
 Inductive meaning :=
 | MDef (args body : list tok)        (* a class made by Context.newdef *)
 | MNew (nargs : nat) (opt : option (list tok)) (body : list tok)   (* a class made by Context.newcommand *)
 | MPrim (p : prim)                   (* a Python macro class of the base context *)
-| MUnrec (k : list N).               (* the class generated by Context.__getitem__ on a failed lookup of k *)
+| MUnrec (k : list N)                (* the class generated by Context.__getitem__ on a failed lookup of k *)
+| MIf (cell : list N)                (* a NewIf class made by Context.newif; [cell] names its class attribute `state` *)
+| MIfSet (cell : list N) (b : bool)  (* the IfTrue / IfFalse class that goes with it (ifclass = that class) *)
+| MCell (b : bool).                  (* the value of a class attribute: kept in the bottom frame under a key no token can spell *)
 
 Definition frame := list (list N * meaning).     (* a ContextItem's dict, newest binding first *)
 Record state := { input : list tok;              (* the token buffer *)
@@ -318,6 +322,8 @@ Section Invoke.
     | PIftrue => elem 8 s_iftrue | PIffalse => elem 8 s_iffalse | PIfnum => elem 8 s_ifnum | PIfcase => elem 8 s_ifcase   (* never pushed *)
     | PNewcommand false => elem E_NEWCOMMAND s_newcommand | PNewcommand true => elem E_RENEWCOMMAND s_renewcommand
     | PLet => elem E_LET s_let
+    | PIfodd => elem 8 s_ifodd
+    | PNewif => elem E_NEWIF s_newif
     end.
 
   (* DefCommand.invoke followed by pushToken(obj) *)
@@ -400,7 +406,7 @@ Section Invoke.
             match lookup st6 name with
             | Some (MPrim PRelax) | Some (MDef _ _) | Some (MNew _ _ _) | Some (MUnrec _) | None =>
                 add_global name (MNew (Z.to_nat z) oo body) st6
-            | Some (MPrim _) => st6
+            | Some (MPrim _) | Some (MIf _) | Some (MIfSet _ _) | Some (MCell _) => st6
             end in
           Ret (push_tok (prim_elem (PNewcommand renew)) st7))
         end
@@ -434,6 +440,38 @@ Section Invoke.
       end
     end.
 
+  (* newif.invoke (Base/TeX/Registers.py): args = 'name:cs'; Context.newif(name): nothing if the name has a meaning; otherwise three
+     global classes: \ifX (NewIf, state False), \Xtrue, \Xfalse (X = name[2:]).  The `state` class attribute gets a cell whose key
+     starts with character 0 and the current size of the bottom frame, so that it is fresh and no control sequence reaches it. *)
+  Definition s_true : list N := [116; 114; 117; 101].
+  Definition s_false : list N := [102; 97; 108; 115; 101].
+  Definition newif_invoke (st : state) : outcome state :=
+    let st1 := ros st in
+    match read_token (input st1) with
+    | (None, _) => Crash 10
+    | (Some ntoks, r1) =>
+      if existsb is_elem ntoks then Unsupp 10 else
+      match filter (fun t => tcat t =? CC_ESCAPE) ntoks with
+      | [] => Crash 10
+      | nt :: _ =>
+        let name := ttext nt in
+        let st2 := set_input st1 r1 in
+        let st3 :=
+          match lookup st2 name with
+          | Some _ => st2
+          | None =>
+            let key := 0 :: N.of_nat (length (bottom st2)) :: name in
+            add_global key (MCell false)
+              (add_global (skipn 2 name ++ s_false) (MIfSet key false)
+                 (add_global (skipn 2 name ++ s_true) (MIfSet key true)
+                    (add_global name (MIf key) st2)))
+          end in
+        Ret (push_tok (prim_elem PNewif) st3)
+      end
+    end.
+  Definition cell_value (st : state) (key : list N) : bool :=
+    match findm key (bottom st) with Some (MCell b) => b | _ => false end.
+
   Definition if_invoke (w : bool) (st : state) : outcome state :=
     match tprocess (WBool w) (input st) with Some i => Ret (set_input st i) | None => Crash 2 end.
 
@@ -453,6 +491,10 @@ Section Invoke.
     | MPrim (PNewcommand renew) => newcommand_def g renew st
     | MUnrec k => Ret (push_tok (elem E_UNREC k) st)     (* nodeName is the class name: the name first looked up *)
     | MPrim PLet => let_invoke st
+    | MPrim PNewif => newif_invoke st
+    | MIf key => if_invoke (cell_value st key) st                   (* tex.processIfContent(type(self).state); return [] *)
+    | MIfSet key b => Ret (add_global key (MCell b) st)             (* type(self).ifclass.setTrue() / setFalse(); return [] *)
+    | MCell _ => Unsupp 11
     | MPrim PBgroup => Ret (push_tok (prim_elem PBgroup) (push_frame st))
     | MPrim PEgroup => Ret (push_tok (prim_elem PEgroup) (pop_frame st))
     | MPrim PRelax => Ret (push_tok (prim_elem PRelax) st)
@@ -461,6 +503,9 @@ Section Invoke.
     | MPrim (PDef gl) => def_invoke gl st
     | MPrim PIftrue => if_invoke true st
     | MPrim PIffalse => if_invoke false st
+    | MPrim PIfodd =>
+        (* tex.processIfContent(bool(tex.readNumber() % 2)) *)
+        bind (read_integer g st) (fun rz => let '(z, st1) := rz in if_invoke (Z.odd z) st1)
     | MPrim PIfcase =>
         (* tex.processIfContent(tex.readNumber()) *)
         bind (read_integer g st) (fun rz =>
@@ -529,7 +574,7 @@ Definition base_frame : frame :=
   [ (s_bgroup, MPrim PBgroup); (s_egroup, MPrim PEgroup); (s_def, MPrim (PDef false)); (s_gdef, MPrim (PDef true));
     (s_relax, MPrim PRelax); (s_else, MPrim PElse); (s_fi, MPrim PFi);
     (s_iftrue, MPrim PIftrue); (s_iffalse, MPrim PIffalse); (s_ifnum, MPrim PIfnum); (s_ifcase, MPrim PIfcase);
-    (s_newcommand, MPrim (PNewcommand false)); (s_renewcommand, MPrim (PNewcommand true)); (s_let, MPrim PLet) ].
+    (s_newcommand, MPrim (PNewcommand false)); (s_renewcommand, MPrim (PNewcommand true)); (s_let, MPrim PLet); (s_ifodd, MPrim PIfodd); (s_newif, MPrim PNewif) ].
 Definition init (i : list tok) : state := {| input := i; ups := []; bottom := base_frame |}.
 
 (* ---- wire ---- *)
@@ -540,6 +585,9 @@ Definition meaning_val (m : option meaning) : val :=
   | Some (MNew n o b) => VL [VI 4; ofNat n; VL (match o with Some x => [toks_val x] | None => [] end); toks_val b]
   | Some (MPrim _) => VL [VI 1]
   | Some (MUnrec _) => VL [VI 2]
+  | Some (MIf _) => VL [VI 5]
+  | Some (MIfSet _ b) => VL [VI 6; ofB b]
+  | Some (MCell _) => VL [VI 7]
   | None => VL [VI 3]
   end.
 Definition names_of (v : val) : option (list (list N)) := match v with VL l => mapM getNs l | _ => None end.
@@ -551,7 +599,11 @@ Definition run_case (v : val) : val :=
     match toks_of ts, names_of ns with
     | Some ts, Some ns =>
       match run (Nat.mul 100 100) (init ts) [] with
-      | Done st out => VL [VI 0; toks_val out; ofNat (S (length (ups st))); VL (map (fun k => meaning_val (lookup st k)) ns)]
+      | Done st out => VL [VI 0; toks_val out; ofNat (S (length (ups st)));
+                            VL (map (fun k => match lookup st k with
+                                              | Some (MIf key) => VL [VI 5; ofB (cell_value st key)]
+                                              | m => meaning_val m
+                                              end) ns)]
       | Crashed k => v_crash k
       | OutOfFuel => v_outoffuel
       | Unsupported k => VL [VI (-5); VI k]
